@@ -278,6 +278,8 @@ class G:
             out.append(self.stmt(depth, in_loop, in_case))
         if self.use_labels and self.cur_routine is not None and self.b(1, 3 if self.side_boost else 12):
             out += self.side_entry(in_loop, in_case)
+        elif self.b(1, 16):
+            out.append({"k": "op", "name": self.pick(["Destroy", "Destroy", "JumpCommon"]), "args": [] if self.b() else [self.int_value()], "ctx": None})
         return out
 
     def side_entry(self, in_loop, in_case):
@@ -327,12 +329,16 @@ class G:
             return {"k": "jump", "label": lab}
         return {"k": "ctl", "v": k}
 
-    def flat_block(self):
+    def flat_block(self, may_end=True):
         n = self.i(0, 3)
         out = []
         for _ in range(n):
             self.take()
             out.append(self.plain_stmt())
+        if may_end and self.b(1, 10):
+            # an operation that ends the flow of the routine's own entity as the last statement of a block (not of an else
+            # block / default case: together with the other blocks that could leave the rest of the routine dead)
+            out.append({"k": "op", "name": "Destroy", "args": [], "ctx": None})
         return out
 
     def plain_stmt(self):
@@ -354,9 +360,9 @@ class G:
         return self.int_value() if self.b() else self.const_value()
 
     def if_stmt(self, depth, in_loop, in_case):
-        def blk():
+        def blk(may_end=True):
             if self.flat:
-                return self.flat_block()
+                return self.flat_block(may_end)
             return self.block(depth + 1, in_loop, in_case, 0, 3)
 
         def conds():
@@ -366,7 +372,7 @@ class G:
         for _ in range(self.pick([0, 0, 0, 1, 1, 2])):
             s["elifs"].append({"not": self.b(1, 3), "conds": conds(), "body": blk()})
         if self.b(2, 5):
-            s["else"] = blk()
+            s["else"] = blk(False)
         return s
 
     def switch_head(self):
@@ -408,7 +414,7 @@ class G:
             is_default = default_at >= 0 and j == min(default_at, total - 1)
             last = j == total - 1
             if self.flat:
-                body = self.flat_block()
+                body = self.flat_block(may_end=default_at < 0)  # (a default may be grouped with any case)
                 if not last and not body and self.b():
                     pass  # grouped case
                 else:
